@@ -15,6 +15,18 @@ CHECKS = {
    technique="runtime monitoring: crash-contained worker processes with journal-before-call, recover, goroutine deadlock monitor, hostile input generators",
    text="Degenerate, blank-only, size-extreme, grammar-mutated and raw byte inputs (8.7k quick / 320k thorough) and programmatic trees with hostile names go through every entry point in simple and massive mode; a panic in any goroutine (worker death attributed via the journal), a recovered panic, a deadlock, or a blank-only input giving output or an error is a violation.",
    note="Hang = all gtree goroutines blocked with unchanged ids in two observations 300 ms apart; a 120 s watchdog firing while goroutines are active is inconclusive. Termination is decided only on the executions run."),
+ "C04": dict(level="exploration", design="DESIGN.md §4 C04",
+   technique="runtime monitoring: round-trip monitor decoding real JSON/YAML/TOML output with the standard decoders and comparing with the model tree",
+   text="Exhaustive small forests (child indexing), every code point U+0000-U+02FF at three positions of a name, and 10k/200k random forests over quoting-hostile, Unicode, control and path-hostile alphabets are encoded by the real library (From-Markdown and From-Root, incl. LF/CR names on the From-Root side) and decoded with encoding/json, yaml.v3 (every value must be a string scalar) and go-toml/v2; names, order and nesting must equal the merged model forest.",
+   note="Names are valid UTF-8. TOML only with one root. yaml.v3's own decoder is the YAML oracle (a plain '<<' resolved as !!merge but yielding the string is accepted)."),
+ "C05": dict(level="exploration", design="DESIGN.md §4 C05",
+   technique="runtime monitoring: visit-sequence recorder compared with model rows and with the text output; stop-at-k counters for failing callbacks and iterator breaks",
+   text="For exhaustive small forests x 3 branch tuples and random forests to 60 nodes, the visits of WalkFromMarkdown, WalkFromRoot, WalkIterFromRoot and the three aliases are recorded and compared with the model rows (all six accessors) and with the text output's lines; at every visit index k a failing callback must stop the walk after k+1 callbacks and come back unchanged, and an iterator break must stop after k+1 visits.",
+   note="Names are single path elements. 'No visit after leaving the iterator' is observed during the loop, after it and after a later call on the same tree."),
+ "C15": dict(level="exploration", design="DESIGN.md §4 C15",
+   technique="runtime monitoring: metamorphic monitor comparing every spelling's observable results with the canonical spelling's (no model)",
+   text="Every labeled forest up to 5/6 nodes in 40 seeded / all 576 spellings (indent unit, bullet policy, # headings, CRLF, blank and whitespace-only lines incl. a leading one, final newline) plus random forests with bullet-like and blank-edged names: text, JSON, YAML, TOML, dry-run, walk rows, strict verify verdict and (for a few spellings) the mkdir snapshot must be identical to the canonical spelling's.",
+   note="Heading spellings only for heading-safe root names; verify verdicts compared as nil-ness plus the set of message lines (map order is unspecified)."),
 }
 PENDING = {}
 ids = [json.loads(l)["id"] for l in open("/verif/properties.jsonl")]
